@@ -365,7 +365,12 @@ void mmd_export_image_html(DString * out, const char * source, token * text, lin
 
 	if (text) {
 		print_const(" alt=\"");
-		print_token_tree_raw(out, source, text->child);
+
+		DString * alt = d_string_new("");
+		print_token_tree_raw(alt, source, text->child);
+		mmd_print_string_html(out, alt->str, false, false);
+		d_string_free(alt, true);
+
 		print_const("\"");
 	}
 
